@@ -256,7 +256,9 @@ func c15(r *mon.Run) {
 	}
 	nA, nB, nD := len(As), len(Bs), len(sdocs)
 	shaped := mon.Workload{Name: "pipe-after-projection", N: nA * nB * nD,
-		Describe: func(i int) string { return gen.Spell(gen.Pipe(As[i/(nB*nD)], Bs[(i/nD)%nB])) + " on " + ref.Canon(sdocs[i%nD]) },
+		Describe: func(i int) string {
+			return gen.Spell(gen.Pipe(As[i/(nB*nD)], Bs[(i/nD)%nB])) + " on " + ref.Canon(sdocs[i%nD])
+		},
 		Do: func(i int, t *mon.Tally) {
 			A, B, doc := As[i/(nB*nD)], Bs[(i/nD)%nB], sdocs[i%nD]
 			t.Eval()
